@@ -1624,7 +1624,11 @@ class JSONVisitor:
             self.dependencies[fileid] = hashlib.blake2b(path.read_bytes()).hexdigest()
         except OSError:
             self.dependencies[fileid] = None
-        return path.is_file()
+        try:
+            return path.is_file()
+        except OSError:
+            # e.g. a name longer than the file system allows
+            return False
 
     def validate_relative_url(self, url_argument: str, line: int) -> None:
         """Validate relative URL points to page within current docs site.
